@@ -1262,7 +1262,12 @@ class _AddWhereOut:
         if i is None:
             return None
         v = vals[i]
+        from vf import exclusions
+
         cands = [j for j, w in enumerate(vals) if w.shape == v.shape and w.dtype.kind in "if"]
+        if "KF-ufunc-out-dtype" in exclusions._open_ids():
+            # listed finding (C11): out= of another dtype than the ufunc's natural result mis-advertises the dtype
+            cands = [j for j in cands if vals[j].dtype == v.dtype]
         return {"op": "add_where_out", "args": [i, D_.choice(cands)], "k": D_.choice([0, 1, 3]), "mod": D_.choice([2, 3])}
 
     @staticmethod
